@@ -205,7 +205,22 @@ def big_prism(rng):
     return None
 
 
+SPLIT_FACES = [0.0]      # probability that a generated polyhedron hands one face over as two coplanar polygons (a closed
+                         # face set the constructor accepts, but not "the faces of the body": only the membership and
+                         # measure checks switch this on, the properties about intersections and canonical form quantify
+                         # over bodies given by their proper faces)
+
+
 def rand_polyhedron(rng, small=False):
+    d = _rand_polyhedron(rng, small)
+    if SPLIT_FACES[0] and rng.random() < SPLIT_FACES[0]:
+        d2 = split_face(rng, d)
+        if d2 is not None:
+            return d2
+    return d
+
+
+def _rand_polyhedron(rng, small=False):
     r = rng.random()
     if rng.random() < (0.03 if small else 0.06):
         d = big_prism(rng)
